@@ -5,9 +5,9 @@ KindCode(k) == CASE k = "i2i" -> 1 [] k = "i2s" -> 2 [] k = "ptrA" -> 3 [] k = "
                  [] k = "s2s" -> 19 [] k = "mapB" -> 23 [] k = "mapK" -> 29 [] k = "mapV" -> 31 [] k = "mapKV" -> 59 [] k = "p2vB" -> 37 [] k = "p2s" -> 41 [] k = "mth" -> 43 [] k = "i2ps" -> 61 [] k = "nI2s" -> 47 [] k = "nL" -> 53 [] OTHER -> 13
 ShapeHash(sh) == IF Len(sh) = 1 THEN KindCode(sh[1]) ELSE KindCode(sh[1]) * 17 + KindCode(sh[2])
 \* the small useUnderlyingTypeMethods set is replayed in every run
-Mine(p) == (ShapeHash(p.shape.A) * 3 + ShapeHash(p.shape.B)) % Parts = Part \/ (\E i \in DOMAIN p.shape.A : p.shape.A[i] \in UnderKinds)
+Mine(p) == (ShapeHash(p.shape.A) * 3 + ShapeHash(p.shape.B)) % Parts = Part \/ (DeclH(p) /\ (ShapeHash(p.shape.B) + KindCode(p.shape.A[1])) % 4 = Part % 4) \/ (\E i \in DOMAIN p.shape.A : p.shape.A[i] \in UnderKinds)
 Rec0(p, dir) == LET g == Gen(p) IN
-  [dir |-> dir, shape |-> p.shape, rootErr |-> p.rootErr, extErr |-> p.extErr, rootCtx |-> p.rootCtx, extCtx |-> p.extCtx, extId |-> p.extId, wrap |-> p.wrap, declB |-> p.declB, under |-> p.under, declL |-> p.declL,
+  [dir |-> dir, shape |-> p.shape, rootErr |-> p.rootErr, extErr |-> p.extErr, rootCtx |-> p.rootCtx, extCtx |-> p.extCtx, extId |-> p.extId, wrap |-> p.wrap, declB |-> p.declB, under |-> p.under, declL |-> p.declL, declH |-> DeclH(p),
    genOK |-> GenOK(p), model |-> Outcome(g),
    ins |-> IF GenOK(p) THEN SetToSeq(ValsN(p, RootSrc, 1)) ELSE <<>>]
 \* this run's share of the programs, plus (AllSuspects) every program whose model outcome is not plain ok/fail
